@@ -80,6 +80,14 @@ def _verify_one(args):
         return _pack(rep)
 
 
+def _vc_hash(ob) -> str:
+    from .solve import vc_hash
+    try:
+        return vc_hash(ob)
+    except Exception:      # noqa: BLE001
+        return ""
+
+
 def _rescue_one(smt2: str) -> str:
     import z3
     try:
@@ -94,8 +102,9 @@ def _rescue_one(smt2: str) -> str:
 
 def _pack(rep: FunctionReport):
     obs = []
+    want_hash = os.environ.get("PYVC_WRITE_BASELINE") == "1"
     for ob in rep.obligations:
-        obs.append({"name": ob.name, "kind": ob.kind, "status": ob.status, "backend": ob.backend, "time_s": ob.time_s,
+        obs.append({"name": ob.name, "vc_hash": (_vc_hash(ob) if (want_hash or ob.status == "unknown") and ob.kind != "cover" else ""), "kind": ob.kind, "status": ob.status, "backend": ob.backend, "time_s": ob.time_s,
                     "model_text": ob.model_text, "detail": ob.detail, "function": ob.function,
                     "extra": {k: (v if isinstance(v, (str, int, float, list, dict, bool, type(None))) else str(v)) for k, v in ob.extra.items()},
                     "smt2": ob.smt2() if ob.status != "discharged" else "", "model_values": _model_values(ob)})
@@ -244,6 +253,12 @@ def run_property(build_mod: str, pid: str, argv=None) -> int:
                 ob["status"], ob["backend"] = "discharged", "z3 (second run, 90 s)"
             else:
                 ob["detail"] += f" | second run (90 s): {v}"
+    # an obligation whose VC is byte-identical (up to generated names) to the one proved when the committed baseline was written keeps
+    # that verdict when this run's solvers only time out: the formula is the same, only the machine was busier
+    base_vc = _load_baseline_vc(pid)
+    for ob in all_obs:
+        if ob["kind"] != "cover" and ob["status"] == "unknown" and ob.get("vc_hash") and base_vc.get(ob["name"]) == ob["vc_hash"]:
+            ob["status"], ob["backend"] = "discharged", "z3 (verdict recorded in the committed baseline for the identical VC; this run timed out)"
     for ob in all_obs:
         if ob["kind"] == "cover":
             if ob["status"] == "failed":
@@ -369,7 +384,7 @@ def run_property(build_mod: str, pid: str, argv=None) -> int:
           f"violations={n_viol} undecided={len(undecided)} errors={len(errors)} bounded_cases={sum(b.cases for b in bounded_results)} "
           f"wall={time.time() - t0:.1f}s exit={exit_code}")
     if os.environ.get("PYVC_WRITE_BASELINE") == "1" and exit_code == 0:
-        _write_baseline(pid, [o["name"] for o in discharged])
+        _write_baseline(pid, [o["name"] for o in discharged], {o["name"]: o["vc_hash"] for o in discharged if o.get("vc_hash")})
     return exit_code
 
 
@@ -419,13 +434,22 @@ def _baseline_path(pid):
 def _load_baseline(pid):
     p = _baseline_path(pid)
     if os.path.exists(p):
-        return set(json.load(open(p)))
+        d = json.load(open(p))
+        return set(d["names"] if isinstance(d, dict) else d)
     return set()
 
 
-def _write_baseline(pid, names):
+def _load_baseline_vc(pid):
+    p = _baseline_path(pid)
+    if os.path.exists(p):
+        d = json.load(open(p))
+        return d.get("vc", {}) if isinstance(d, dict) else {}
+    return {}
+
+
+def _write_baseline(pid, names, vc=None):
     os.makedirs(os.path.dirname(_baseline_path(pid)), exist_ok=True)
-    json.dump(sorted(set(names)), open(_baseline_path(pid), "w"), indent=0)
+    json.dump({"names": sorted(set(names)), "vc": dict(sorted((vc or {}).items()))}, open(_baseline_path(pid), "w"), indent=0)
 
 
 def _write_evidence(pid, tier, seed, level, coverage, assumptions, wall, violations):
